@@ -317,6 +317,21 @@ class Sequence(Container, list):
         self.extend(iterable)
         return self
 
+    def __imul__(self, count):
+        # list.__imul__ would repeat the very same member objects; repeat
+        # their values as fresh members instead.
+        count = int(count.__index__())
+        if count <= 0:
+            del self[:]
+        else:
+            values = [
+                member.value if member.value is not None or not member.u else member.u
+                for member in self
+            ]
+            for _ in range(count - 1):
+                self.extend(values)
+        return self
+
     def remove(self, value):
         """Remove member with value *value*.
 
